@@ -115,14 +115,18 @@ func encodeText(cs *charset, text []rune) []byte {
 // before it polls again).
 // cycles: Suspend/Resume cycles the application goes through (after enabling
 // bracketed paste, if it does) before the text arrives.
-func runC11(cfg hx.Config, ch *simrt.Chooser, cs *charset, text []rune, paste bool, focus int, cuts []int, delivery int, cycles int) (*hx.Failure, error) {
+// via: which locale variable carries the character set (hx.Config.LocaleVia).
+// readErr: one tty read fails before the text arrives (the application then
+// restarts input with a Suspend/Resume cycle: cycles >= 1).
+func runC11(cfg hx.Config, ch *simrt.Chooser, cs *charset, text []rune, paste bool, focus int, cuts []int, delivery int, cycles int, via int, readErr bool) (*hx.Failure, error) {
 	cfg.Locale = "en_US." + cs.Name
+	cfg.LocaleVia = via
 	w, err := newIW(cfg, ch)
 	if err != nil {
 		return nil, err
 	}
 	cp := capsOf(w.Ti)
-	w.S.Note(hx.Fingerprint(cfg, cs.Name, text, paste, focus, cuts, delivery, cycles))
+	w.S.Note(hx.Fingerprint(cfg, cs.Name, text, paste, focus, cuts, delivery, cycles, via, readErr))
 	// The terminal side: it brackets a paste only while the application has
 	// bracketed-paste mode switched on (the last h/l it was sent decides).
 	pasteMode := false
@@ -148,6 +152,12 @@ func runC11(cfg hx.Config, ch *simrt.Chooser, cs *charset, text []rune, paste bo
 				wrote = wrote[j+len(offSeq):]
 			}
 		}
+	}
+	if readErr && cycles > 0 {
+		w.Tty.ReadErr = hx.ErrInjected
+		w.Tty.ErrAfter = 0
+		w.settle()
+		w.take()
 	}
 	if paste || cycles > 0 {
 		var srErr error
@@ -313,7 +323,7 @@ func TestC11(t *testing.T) {
 					}
 				}
 				hx.Arm("C11 enum")
-				f, err := runC11(hx.Config{Term: "xterm-256color", W: 80, H: 24, GapScale: 1, AltScreen: true}, &simrt.Chooser{}, cs, text, idx%5 == 0, 0, cuts, 0, 0)
+				f, err := runC11(hx.Config{Term: "xterm-256color", W: 80, H: 24, GapScale: 1, AltScreen: true}, &simrt.Chooser{}, cs, text, idx%5 == 0, 0, cuts, 0, 0, idx%5, false)
 				hx.Disarm()
 				if err != nil {
 					t.Fatalf("HARNESS: %v", err)
@@ -379,7 +389,9 @@ func TestC11(t *testing.T) {
 		hx.Arm("C11")
 		defer hx.Disarm()
 		cycles := rapid.SampledFrom([]int{0, 0, 0, 1, 2}).Draw(rt, "cycles")
-		f, err := runC11(cfg, ch, cs, text, paste, focus, cuts, delivery, cycles)
+		via := rapid.IntRange(0, 4).Draw(rt, "localevia")
+		readErr := rapid.IntRange(0, 5).Draw(rt, "readerr") == 0
+		f, err := runC11(cfg, ch, cs, text, paste, focus, cuts, delivery, cycles, via, readErr)
 		if err != nil {
 			rt.Fatalf("HARNESS: %v", err)
 		}
